@@ -342,6 +342,9 @@ def expand(prog, f, depth=2, local_only=False):
             elif isinstance(st, ast.Assign) and len(st.targets) == 1 and isinstance(st.value, ast.Call) \
                     and isinstance(st.targets[0], (ast.Name, ast.Attribute)):
                 call, kind = st.value, "assign"
+            elif isinstance(st, ast.Assign) and len(st.targets) == 1 and isinstance(st.value, ast.Call) \
+                    and isinstance(st.targets[0], ast.Tuple) and all(isinstance(e, ast.Name) for e in st.targets[0].elts):
+                call, kind = st.value, "assign-tuple"
             elif isinstance(st, ast.Return) and isinstance(st.value, ast.Call):
                 call, kind = st.value, "return"
             done = False
@@ -357,12 +360,27 @@ def expand(prog, f, depth=2, local_only=False):
                         if body is not None:
                             if kind == "expr":
                                 body = _replace_returns(body, lambda v, s: [] if v is None else [_loc(ast.Expr(value=v), s)])
+                            elif kind == "assign-tuple":
+                                tgt = st.targets[0]
+                                arity = len(tgt.elts)
+                                rets = [x for x in ast.walk(ast.Module(body=body, type_ignores=[])) if isinstance(x, ast.Return)]
+                                if not rets or not all(isinstance(x.value, ast.Tuple) and len(x.value.elts) == arity for x in rets):
+                                    body = None
+                                else:
+                                    from .desugar import _D
+
+                                    def mk(v, s, tgt=tgt):
+                                        a_ = _loc(ast.Assign(targets=[copy.deepcopy(tgt)], value=v, type_comment=None), s)
+                                        r_ = _D().visit_Assign(a_)
+                                        return r_ if isinstance(r_, list) else [r_]
+                                    body = _replace_returns(body, mk)
                             elif kind == "assign":
                                 tgt = st.targets[0]
                                 body = _replace_returns(body, lambda v, s, tgt=tgt: [_loc(ast.Assign(
                                     targets=[copy.deepcopy(tgt)], value=v if v is not None else ast.Constant(value=None), type_comment=None), s)])
                             else:
                                 body = _replace_returns(body, lambda v, s: [_loc(ast.Return(value=v), s)])
+                        if body is not None:
                             sub_owner = callee if isinstance(callee, FuncInfo) else owner
                             out.extend(walk_block(body, sub_owner, level + 1, local_defs))
                             done = True
